@@ -117,6 +117,9 @@ func (m *parserModel) matchLenTest(want func(onEdge, other [5]bool) bool) (*ssa.
 		for k := 0; k < 2; k++ {
 			sets[k] = classes(append(append([]Fact{}, at...), condFacts(iff.Cond, k == 0, iff)...), mc)
 		}
+		if m.lenSets != nil {
+			m.lenSets[iff] = sets
+		}
 		for k := 0; k < 2; k++ {
 			if want(sets[k], sets[1-k]) {
 				return iff, k, mc
